@@ -175,44 +175,100 @@ func genArch(r *gal.Rand, tier string, bad bool, archName string) (Arch, *gen) {
 	return Arch{Name: archName, Indexes: idx}, g
 }
 
-// install_if packages: at most 4 distinct trigger names per universe
+// install_if packages. The install_if loop is deterministic since fix c03e0c0
+// (it walks the dependency list by index), so any amount of structure can be
+// compared with the model: several packages per trigger, several triggers per
+// package, chains (x-doc triggers x-doc-extra triggers x-doc-extra-more),
+// versioned entries name=version (right and wrong version, and next to an
+// unversioned entry for the same name, which shadows the versioned key), entries
+// with another operator (the loop compares the version text only), entries on
+// provided (virtual) names, two versions of one install_if package.
 func addInstallIf(r *gal.Rand, a *Arch, g *gen) {
-	trig := map[string]bool{}
 	n := 1 + r.Intn(3)
+	if r.Chance(1, 3) {
+		n += 2 + r.Intn(4)
+	}
+	var made []string // names of install_if packages made so far (chain targets)
+	put := func(p Pkg) {
+		if r.Chance(1, 3) {
+			p.Deps = []string{g.constraintOn(g.target(10), 20)}
+		}
+		i := r.Intn(len(a.Indexes))
+		if r.Chance(1, 4) && len(a.Indexes[i].Pkgs) > 0 {
+			// not at the end of its index: before some of its triggers
+			j := r.Intn(len(a.Indexes[i].Pkgs))
+			a.Indexes[i].Pkgs = append(a.Indexes[i].Pkgs[:j:j], append([]Pkg{p}, a.Indexes[i].Pkgs[j:]...)...)
+		} else {
+			a.Indexes[i].Pkgs = append(a.Indexes[i].Pkgs, p)
+		}
+		made = append(made, p.Name)
+	}
+	versioned := func(x string) string {
+		v := gal.Pick(r, g.vers[x])
+		if r.Chance(1, 5) {
+			v = g.ver() // possibly a version that does not exist
+		}
+		return x + "=" + v
+	}
 	for k := 0; k < n; k++ {
 		x := gal.Pick(r, g.names)
 		p := Pkg{Name: x + "-doc", Version: gal.Pick(r, []string{"1.0", "2.0"}), Origin: x}
 		want := []string{x}
-		switch r.Intn(6) {
-		case 0:
+		switch r.Intn(12) {
+		case 0: // two triggers
 			y := gal.Pick(r, g.names)
 			p.Name = x + "-" + y + "-glue"
 			want = []string{x, y}
-		case 1:
-			want = []string{x + "=" + gal.Pick(r, g.vers[x])}
-		case 2: // chained trigger: fires on another install_if package
+		case 1: // versioned trigger
+			want = []string{versioned(x)}
+		case 2: // waits for another install_if package
 			want = []string{x, gal.Pick(r, g.names) + "-doc"}
 			p.Name = x + "-extra"
-		}
-		ok := true
-		for _, w := range want {
-			nm := strings.SplitN(w, "=", 2)[0]
-			if !trig[nm] && len(trig) >= 4 {
-				ok = false
+		case 3: // chain on a package made before (or after: the -doc of some name)
+			t := gal.Pick(r, g.names) + "-doc"
+			if len(made) > 0 && r.Chance(2, 3) {
+				t = gal.Pick(r, made)
+			}
+			p.Name = t + "-more"
+			want = []string{t}
+		case 4: // three triggers, one of them versioned
+			y, z := gal.Pick(r, g.names), gal.Pick(r, g.names)
+			p.Name = x + "-" + y + "-" + z + "-trio"
+			want = []string{x, versioned(y), z}
+		case 5: // install_if on a provided name
+			if len(g.virts) > 0 {
+				v := gal.Pick(r, g.virts)
+				p.Name = x + "-on-virtual"
+				want = []string{v}
+				if r.Chance(1, 2) {
+					want = []string{x, v}
+				}
+			}
+		case 6: // an operator other than "="
+			p.Name = x + "-op"
+			want = []string{x + gal.Pick(r, []string{">", ">=", "<", "~"}) + gal.Pick(r, g.vers[x])}
+		case 7: // versioned and unversioned entries for the same name in one universe
+			p.Name = x + "-ver"
+			want = []string{versioned(x)}
+			put(p)
+			p = Pkg{Name: x + "-any", Version: "1.0", Origin: x}
+			want = []string{x}
+			if r.Chance(1, 2) {
+				want = []string{x, gal.Pick(r, g.names)}
+			}
+		case 8: // two versions of one install_if package under one key
+			p.InstallIf = want
+			put(p)
+			p = Pkg{Name: x + "-doc", Version: gal.Pick(r, []string{"0.5", "3.0"}), Origin: x}
+		case 9: // versioned entry on an install_if package (chain through name=version)
+			if len(made) > 0 {
+				t := gal.Pick(r, made)
+				p.Name = t + "-pin"
+				want = []string{t + "=" + gal.Pick(r, []string{"1.0", "2.0"})}
 			}
 		}
-		if !ok {
-			continue
-		}
-		for _, w := range want {
-			trig[strings.SplitN(w, "=", 2)[0]] = true
-		}
 		p.InstallIf = want
-		if r.Chance(1, 2) {
-			p.Deps = []string{g.constraintOn(g.target(10), 20)}
-		}
-		i := r.Intn(len(a.Indexes))
-		a.Indexes[i].Pkgs = append(a.Indexes[i].Pkgs, p)
+		put(p)
 	}
 }
 
